@@ -15,3 +15,11 @@ CHECKS["C05"] = dict(
           "`bumpver test OLD PATTERN <flags> --date D` runs are recorded as `incr` events; the trace spec reads old and new text with its own recogniser and "
           "evaluates the rules on every event."),
     note=_NOTE, ref="DESIGN.md section 6, C05")
+CHECKS["C02"] = dict(
+    technique="TLA+ spec (BVParts/BVPattern/BVVersion/BVCalendar) model-checked with TLC + trace validation of render/parse round trips of the real code",
+    text=("Design level: (a) TLC walks every day of the range (quick 2001..2099 + both ends, thorough 1000..9999) and checks that each calendar part's rendering "
+          "is accepted in full by that part's recogniser and reads back equal (the value sets come from the spec's calendar, which is how the week-53 gap S1 shows); "
+          "(b) corpus patterns x pool states x every flag set: the pool state and the state one bump away render to a text that is accepted, reads back with "
+          "every part equal, re-renders byte for byte and decomposes uniquely. Conformance: rt/rt2/parse events recorded from format_version, "
+          "parse_version_info, incr and `bumpver test` chains are validated by the trace spec."),
+    note=_NOTE, ref="DESIGN.md section 6, C02")
